@@ -23,7 +23,7 @@ def population():
 
 
 CLASSES = {"K": RW.K, "Sub": RW.Sub, "E": RW.E, "U": RW.U}
-RESULT = {"meth": 1, "other": 2, "deco": 3, "tree": 5, "glob": 6}
+RESULT = {"meth": 1, "other": 2, "deco": 3, "deco2": 7, "tree": 5, "glob": 6}
 
 
 def run_case(c):
